@@ -163,10 +163,10 @@ CHECKS = {
     ),
     "C17": dict(
         level="exploration",
-        rule=("generated association configurations (disable/enable/integrity classes on or off, three time-sync procedures, retry min/max with non power-of-two ratios, keep-alive, periodic poll) against a scripted outstation that answers faithfully with scripted IIN1.7 / IIN1.4 bits, stays silent for the first n attempts of one automatic task, injects empty and data-bearing unsolicited responses at random positions and reconnects; "
+        rule=("generated association configurations (disable/enable/integrity classes on or off, three time-sync procedures, retry min/max with non power-of-two ratios, keep-alive, periodic poll) against a scripted outstation that answers faithfully with scripted IIN1.7 / IIN1.4 bits, stays silent for / rejects with IIN2 / answers with a malformed reply the first n attempts of one automatic task, injects empty and data-bearing unsolicited responses at random positions and reconnects; "
               "M1 order of first occurrences per connection, M2 clear-restart is the next request after IIN1.7 and integrity/enable are repeated before polls resume, M3 unsolicited data is neither delivered nor confirmed before integrity completes (empty ones are confirmed; data is delivered after), M4 exact back-off delays in virtual time"),
         runs=[dict(check="c17", scale=2, timeout_s=900)],
-        required=["M1_step_in_order_ok", "M1_full_startup_seen", "M2_step_in_order_ok", "poll_after_startup_ok", "M3_gated_ok", "M3_gated_after_restart_ok", "M3_null_confirmed_ok", "M3_delivered_after_integrity_ok", "M4_backoff_ok", "M4_backoff_ok_Silent", "M4_backoff_ok_BadReply", "M4_backoff_ok_Stubborn", "M4_backoff_at_max_ok", "unsolicited_idle", "unsolicited_awaiting_reply", "unsolicited_back_off"],
+        required=["M1_step_in_order_ok", "M1_full_startup_seen", "M2_step_in_order_ok", "poll_after_startup_ok", "M3_gated_ok", "M3_gated_after_restart_ok", "M3_null_confirmed_ok", "M3_delivered_after_integrity_ok", "M4_backoff_ok", "M4_backoff_ok_Silent", "M4_backoff_ok_BadReply", "M4_backoff_ok_Stubborn", "M4_backoff_at_max_ok", "unsolicited_idle", "unsolicited_awaiting_reply", "unsolicited_back_off", "rejected_by_iin2_replies"],
         thorough_scale=12.0,
         abnormal_exit_is_violation=True,
         assumptions=HARNESS_TRUST,
